@@ -150,6 +150,11 @@ pub enum Action {
 	/// revoke_and_ack with the secret of the wrong commitment number (the next point's parent
 	/// replaced), 2: commitment_signed with a signature made invalid
 	Tamper { from: usize, to: usize, kind: u8 },
+	/// C08: node `n` loses all its connections and cannot reconnect until `Heal`
+	Partition { n: usize },
+	Heal { n: usize },
+	/// C08: node `n` stops for good (its operator never comes back)
+	Gone { n: usize },
 	/// perturbations of the liquidation phase (see justice::LiqPlan)
 	LiqPlan { holds: Vec<(u32, u32)>, restarts: Vec<(u32, usize)>, fees: Vec<(u32, usize, u32)> },
 }
@@ -186,6 +191,9 @@ impl Action {
 			Action::Liquidate => "Liquidate",
 			Action::Cheat { .. } => "Cheat",
 			Action::Tamper { .. } => "Tamper",
+			Action::Partition { .. } => "Partition",
+			Action::Heal { .. } => "Heal",
+			Action::Gone { .. } => "Gone",
 			Action::LiqPlan { .. } => "LiqPlan",
 		}
 	}
@@ -210,6 +218,9 @@ impl Action {
 			| Action::Restart { n, .. }
 			| Action::Sweep { n }
 			| Action::Cheat { n, .. }
+			| Action::Partition { n }
+			| Action::Heal { n }
+			| Action::Gone { n }
 			| Action::Abandon { n, .. } => *n,
 			Action::Deliver { to, .. } | Action::Tamper { to, .. } => *to,
 			Action::Disconnect { a, .. } | Action::Reconnect { a, .. } => *a,
@@ -487,6 +498,10 @@ pub struct Pay {
 	pub first_gen: u64,
 	/// manager snapshot generation current when the recipient called claim_funds
 	pub claim_gen: Option<u64>,
+	/// height, advertised deadline and recipient incarnation when claim_funds was called
+	pub claim_height: Option<u32>,
+	pub claim_deadline: Option<u32>,
+	pub claim_incarnation: Option<u32>,
 	/// the sender restarted from a manager snapshot older than the payment and re-learned it
 	/// from its ChannelMonitors
 	pub rehydrated: bool,
@@ -527,6 +542,10 @@ pub struct World {
 	/// set while a Tamper action delivers the head of a queue
 	pub tamper: Option<u8>,
 	pub tampers_done: u32,
+	/// C08: nodes currently cut off; nodes that were ever cut off or gone; last HTLC views
+	pub partitioned: BTreeSet<usize>,
+	pub ever_unresponsive: BTreeSet<usize>,
+	pub htlc_views: crate::deadlines::HtlcViews,
 	pub liq_plan: Option<crate::justice::LiqPlan>,
 }
 
@@ -694,6 +713,9 @@ impl World {
 			cheat: None,
 			tamper: None,
 			tampers_done: 0,
+			partitioned: BTreeSet::new(),
+			ever_unresponsive: BTreeSet::new(),
+			htlc_views: BTreeMap::new(),
 			liq_plan: None,
 		}
 	}
@@ -1142,6 +1164,46 @@ impl World {
 				}
 			}
 		}
+		// Two honest peers whose channel state is consistent never disagree about it: an error that
+		// says they do (outside profile `offchain`, which judges every error) is reported whatever
+		// the profile; after a restart it means the restored state was not what the peer was told.
+		const DISAGREEMENTS: [&str; 8] = [
+			"Remote skipped HTLC ID",
+			"Invalid commitment tx signature",
+			"Invalid HTLC tx signature",
+			"Got a revoke commitment secret which didn't correspond",
+			"Previous secrets did not match new one",
+			"Received an unexpected revoke_and_ack",
+			"Remote tried to fulfill/fail an HTLC we couldn't find",
+			"Peer sent a garbage channel_reestablish",
+		];
+		if !self.strict_offchain {
+			if let Some(pat) = DISAGREEMENTS.iter().find(|p| data.contains(**p)) {
+				let c = self.chan_by_id(&chan);
+				let excused = c.map(|c| self.chans[c].tainted).unwrap_or(true);
+				self.out.bump("oracle:C10-4 honest peers never disagree about channel state");
+				if !excused {
+					let restarted = self.nodes[n].incarnation > 0 || self.nodes[to].incarnation > 0;
+					// without a restart this is C01's subject; it is reported under the property whose
+					// check runs this profile so that it is never lost as another check's business
+					let own = self.loss_property(n, &[]);
+					let own_oracle = format!("{}-D peers disagree about channel state", own);
+					let (prop, oracle) = if restarted {
+						("C10", "C10-4 peers disagree about channel state after a restart")
+					} else {
+						(own, own_oracle.as_str())
+					};
+					if let Some(c) = c {
+						self.chans[c].tainted = true;
+					}
+					self.violate(
+						prop,
+						oracle,
+						format!("node {} fails channel {:?} with node {}: {} [{}]", n, c, to, data, pat),
+					);
+				}
+			}
+		}
 		// Only stale messages for a channel that was already closed cooperatively (or that the
 		// user force-closed) may be answered with an error.
 		let expected = match self.chan_by_id(&chan) {
@@ -1386,6 +1448,9 @@ impl World {
 		if self.nodes[a].live.is_none() || self.nodes[b].live.is_none() {
 			return false;
 		}
+		if self.partitioned.contains(&a) || self.partitioned.contains(&b) {
+			return false;
+		}
 		// anything either side still wants to say to the dead connection is discarded first
 		self.connect(a, b);
 		self.after_node_action(a);
@@ -1562,6 +1627,11 @@ impl World {
 					self.on_error_emitted(n, peer, &text, cid, "error");
 				}
 				return;
+			}
+		}
+		if short == "HTLCsTimedOut" {
+			if let Some(c) = ci {
+				self.oracle_on_timeout_close(n, c);
 			}
 		}
 		if short == "OutdatedChannelManager" {
@@ -1803,6 +1873,9 @@ impl World {
 			forgotten: None,
 			first_gen: self.nodes[from].disk.lock().unwrap().manager_generation + 1,
 			claim_gen: None,
+			claim_height: None,
+			claim_deadline: None,
+			claim_incarnation: None,
 			rehydrated: false,
 		});
 		self.note(&format!("send pay {} {}->{} total {} accepted {}", idx, from, to, total, pending));
@@ -1836,6 +1909,9 @@ impl World {
 		let pre = self.pays[pay].preimage;
 		self.pays[pay].claim_called = Some(self.step);
 		self.pays[pay].claim_gen = Some(self.nodes[n].disk.lock().unwrap().manager_generation);
+		self.pays[pay].claim_height = Some(self.nodes[n].synced_height);
+		self.pays[pay].claim_deadline = self.nodes[n].claimables.get(&pay).and_then(|c| c.claim_deadline);
+		self.pays[pay].claim_incarnation = Some(self.nodes[n].incarnation);
 		self.nodes[n].claimables.remove(&pay);
 		if let Err((m, l)) = catch(|| mgr.claim_funds(pre)) {
 			self.library_panic("Claim", m, l);
@@ -2156,6 +2232,9 @@ impl World {
 	}
 
 	pub fn fingerprint(&mut self) {
+		if self.cfg.profile == "deadlines" {
+			self.record_htlc_views();
+		}
 		let mut h = fnv(b"state");
 		for n in 0..self.nodes.len() {
 			match self.mgr(n) {
@@ -2254,11 +2333,15 @@ impl World {
 			},
 			Action::Relay { n } => self.do_relay(*n),
 			Action::Mine { count } => {
-				let r = self.do_mine(*count);
-				for n in 0..self.nodes.len() {
-					self.do_sync(n, 255);
+				if self.cfg.profile == "deadlines" {
+					self.do_mine_paced(*count)
+				} else {
+					let r = self.do_mine(*count);
+					for n in 0..self.nodes.len() {
+						self.do_sync(n, 255);
+					}
+					r
 				}
-				r
 			},
 			Action::Sync { n, style } => self.do_sync(*n, *style),
 			Action::Crash { n, pick } => self.do_crash(*n, pick),
@@ -2284,6 +2367,9 @@ impl World {
 				true
 			},
 			Action::Tamper { from, to, kind } => self.do_tamper(*from, *to, *kind),
+			Action::Partition { n } => self.do_partition(*n),
+			Action::Heal { n } => self.do_heal(*n),
+			Action::Gone { n } => self.do_gone(*n),
 			Action::Cheat { n, chan, age, same_block, later, v_late } => {
 				self.do_cheat(*n, *chan, *age, *same_block, *later, *v_late)
 			},
@@ -2334,6 +2420,8 @@ impl World {
 
 	pub fn settle(&mut self) {
 		self.in_settle = true;
+		// faults stop: partitions heal
+		self.partitioned.clear();
 		let n_nodes = self.nodes.len();
 		// faults stop: disarm pending crash points
 		for n in 0..n_nodes {
